@@ -396,6 +396,11 @@ func runC06(args []string) int {
 				rep.Fail("harness:lookup-compile", cerr, t.String())
 				continue
 			}
+			rep.Eval(fmt.Sprintf("lookup-levels|%s|%d", t, mode), true)
+			if s := checkLookupLevels(ccs); s != "" {
+				rep.Fail("c06:lookup-level-order:"+t.String(), "a lookup instruction is scheduled no later than a wire it reads (its outcome then depends on the workers' interleaving): "+s,
+					solverCaseDesc{Target: t.String(), Prog: fmt.Sprintf("lookup table mode %d", mode), Kind: "lookup"})
+			}
 			for qi, q := range [][3]int64{{0, 4, 1}, {2, 3, 1}, {1, 1, 1}, {1, 4, 0}, {0, 7, -1}, {1, 3, 1}, {0, 4, 1}} {
 				i0, i1, ok := q[0], q[1], q[2]
 				// the table entries depend on the witness: one compiled system is solved with different tables in turn
